@@ -1180,7 +1180,14 @@ pub fn srand(g: &mut Gen, r: &mut Rng, cases: usize, max_ops: usize) {
         let nrep = 2 + r.below(4);
         let join = nrep > 2 || r.chance(1, 2);
         let m = if join { "join" } else { "peer" };
-        let n = 2usize;
+        // digest width and the position of the byte in which two values differ vary per case
+        let n = [2usize, 2, 3, 16, 20, 32][r.below(6) as usize];
+        let vpos = [0usize, n - 1, 8.min(n - 1), 17.min(n - 1)][r.below(4) as usize];
+        let mkv = |x: u8| -> Vec<u8> {
+            let mut v = vec![0xa0u8; n];
+            v[vpos] = x;
+            v
+        };
         let base = [16u8, 16, 4, 2, 3][r.below(5) as usize];
         let nk = 2 + r.below(14) as usize;
         let kds: Vec<Vec<u8>> = (0..nk).map(|i| digest_for_level(geometric_level(&mut r, 4), base, n, i as u8 * 2)).collect();
@@ -1190,7 +1197,7 @@ pub fn srand(g: &mut Gen, r: &mut Rng, cases: usize, max_ops: usize) {
             // replicas bootstrapped by cloning a seed replica that already holds data and hashes
             g.op(format!("rnew 0 {base} n={n}"));
             for i in 0..(1 + r.below(nk as u64) as usize) {
-                let v = vec![1 + r.below(3) as u8, 0xa0];
+                let v = mkv(1 + r.below(3) as u8);
                 let key = vec![0x30 + i as u8];
                 g.op(format!("rwrite 0 {} {} {} {m}", xtok(&key), xtok(&kds[i]), xtok(&v)));
                 if join {
@@ -1220,7 +1227,7 @@ pub fn srand(g: &mut Gen, r: &mut Rng, cases: usize, max_ops: usize) {
             if r.chance(3, 5) {
                 let i = r.below(nk as u64) as usize;
                 let rep = r.below(nrep);
-                let v = vec![1 + r.below(6) as u8, 0xa0];
+                let v = mkv(1 + r.below(6) as u8);
                 let key = vec![0x30 + i as u8];
                 g.op(format!("rwrite {rep} {} {} {} {m}", xtok(&key), xtok(&kds[i]), xtok(&v)));
                 if join {
